@@ -281,16 +281,33 @@ def run(ctx):
     # a request parameter allowed is the documented default under
     # `<param> is None`
     n_rebind = 0
-    for n in own_nodes(dispatch.node):
+    # judged on dispatch with its private (and newly added) steps inlined, so a
+    # default resolved in a helper (`x = self._resolve(x)`) is seen as what it is
+    dflat = ctx.norm.flat(dispatch, depth=3)
+
+    def under_none_guard(node, pname):
+        """some enclosing if (then-branch) tests `<pname> is None`"""
+        child, cur = node, dflat.module.parents.get(node)
+        while cur is not None and cur is not dflat.node:
+            if isinstance(cur, ast.If) and child in cur.body and ast.unparse(cur.test) in (f"{pname} is None", f"{pname} == None"):
+                return True
+            if isinstance(cur, ast.If) and child in cur.orelse and ast.unparse(cur.test) in (f"{pname} is not None", f"{pname} != None"):
+                return True
+            child, cur = cur, dflat.module.parents.get(cur)
+        return False
+
+    for n in own_nodes(dflat.node):
         if not isinstance(n, ast.Assign):
             continue
         for t in n.targets:
             if isinstance(t, ast.Name) and t.id in dispatch.params[1:]:
+                if isinstance(n.value, ast.Name) and n.value.id == t.id:
+                    continue  # `x = x`: the value handed back unchanged by an inlined step
                 n_rebind += 1
-                guard = _enclosing_if(dispatch, n)
+                guard = _enclosing_if(dflat, n)
                 want = f"{t.id} is None"
-                if guard is not None and ast.unparse(guard.test) in (want, f"{t.id} == None") and n in guard.body:
-                    chk.ok("R09.e", dispatch.qualname, dispatch.loc(n), f"`{t.id}` defaulted only under `{want}`")
+                if under_none_guard(n, t.id):
+                    chk.ok("R09.e", dispatch.qualname, dflat.loc(n), f"`{t.id}` defaulted only under `{want}`")
                 else:
                     gt = ast.unparse(guard.test) if guard is not None else "no guard"
                     chk.violation(
